@@ -124,7 +124,7 @@ lazy_static! {
 /// Whether the character cannot be printed: control, format, private use or
 /// unassigned code point
 fn is_unprintable(c: char) -> bool {
-    c.is_other() || OTHER.is_match(c.encode_utf8(&mut [0; 4]))
+    c.is_other() || (!c.is_ascii() && OTHER.is_match(c.encode_utf8(&mut [0; 4])))
 }
 
 /// All non-printable unicode are rendered as hexadecimal escape sequence, all
